@@ -4187,9 +4187,15 @@ impl QueryRouter {
 
                 let cmp =
                     self.compare_values_with_nulls(val_a.as_ref(), val_b.as_ref(), item.nulls);
+                // DESC reverses the order of the values. An explicit NULLS FIRST/LAST
+                // states where the NULLs go regardless of direction, so the placement
+                // of a NULL against a non-NULL must not be reversed with it.
+                let is_null = |v: &Option<Value>| matches!(v, None | Some(Value::Null));
+                let null_placement =
+                    item.nulls.is_some() && (is_null(&val_a) != is_null(&val_b));
                 let cmp = match item.direction {
-                    SortDirection::Asc => cmp,
-                    SortDirection::Desc => cmp.reverse(),
+                    SortDirection::Desc if !null_placement => cmp.reverse(),
+                    SortDirection::Asc | SortDirection::Desc => cmp,
                 };
 
                 if cmp != std::cmp::Ordering::Equal {
